@@ -699,7 +699,7 @@ fn run_mixed_rows(page: usize, ctx: &mut Ctx) {
         if other.size != font.size {
             continue; // the renderer draws every page in the cell size of the primary font
         }
-        let mut b = Buffer::new((3 * blank.len().max(1) as i32, 3));
+        let mut b = Buffer::new((3 * blank.len().max(1) as i32, 4));
         b.set_font(0, other.clone());
         b.set_font(q, other);
         b.set_font(page, font.clone());
@@ -713,6 +713,14 @@ fn run_mixed_rows(page: usize, ctx: &mut Ctx) {
                 put(&mut b, x + 1, row as i32, &Cell::new(*g, *fg, *bg).page(page));
                 put(&mut b, x + 2, row as i32, &Cell::new(b'A' as u32, af, ab).page(q));
             }
+        }
+        // row 3: a drawn glyph of this page, then - in the same colours and flags - a glyph number that is blank in this page on the other
+        // page (where it may be drawn): what a table kept from the previous cell says about the second cell is wrong
+        for (i, g) in blank.iter().enumerate() {
+            let x = 3 * i as i32;
+            put(&mut b, x, 3, &Cell::new(b'A' as u32, 14, 1).page(page));
+            put(&mut b, x + 1, 3, &Cell::new(*g, 14, 1).page(q));
+            put(&mut b, x + 2, 3, &Cell::new(b'B' as u32, 14, 1).page(page));
         }
         // the same font once more in slot 7 with every blank glyph made visible in place (its cached checksum still equals the original's)
         let mut copy = font.clone();
